@@ -409,6 +409,65 @@ def py_pool():
     return out
 
 
+def jsx_receiver_oracle(ck) -> int:
+    """read-only operations on a JSX component whose props hold lists / dicts / tuples of tags, components and tagifiable
+    objects: every container the caller handed over still holds the very same objects afterwards, and the results repeat"""
+    from htmltools import HTMLDependency, HTMLDocument, Tag, TagList
+    from htmltools._jsx import jsx_tag_create
+    n = 0
+
+    class Comp:
+        def __init__(self, k):
+            self.k = k
+
+        def tagify(self):
+            return Tag("em", self.k, HTMLDependency("c" + self.k, "1.0"))
+
+    def shape(v):
+        """identity-and-structure snapshot of a prop value"""
+        if isinstance(v, (list, tuple)):
+            return (type(v).__name__, id(v), tuple(shape(x) for x in v))
+        if isinstance(v, dict):
+            return ("dict", id(v), tuple((k, shape(x)) for k, x in v.items()))
+        if isinstance(v, Tag):
+            return ("Tag", id(v), v.name, tuple(v.attrs.items()), tuple(shape(c) for c in v.children))
+        return (type(v).__name__, id(v) if not isinstance(v, (str, int, float, bool, type(None))) else v)
+
+    Foo, Bar = jsx_tag_create("Foo"), jsx_tag_create("Bar")
+
+    def builds():
+        yield "list prop with a tag, a component and a tagifiable object", lambda: Foo(items=[Tag("b", "x"), Bar(n=1), Comp("k"), "s"])
+        yield "dict prop with tagifiable values", lambda: Foo(cfg={"a": Comp("a"), "b": Tag("i", Comp("n")), "c": 3})
+        yield "nested list / dict / tuple props", lambda: Foo(Tag("p", "child"), rows=[[Comp("r1")], {"cell": Tag("td", "t")}, (Comp("r2"), "u")])
+        yield "list prop inside a nested component", lambda: Foo(Bar(items=[Comp("z"), Tag("u")]), Tag("div", Bar(opts={"o": Comp("o")})))
+
+    ops_ = [("str()", lambda x: str(x)), ("tagify()", lambda x: str(x.tagify())), ("repr()", lambda x: repr(x)), ("_repr_html_()", lambda x: x._repr_html_()),
+            ("TagList(x).render()", lambda x: (lambda r: (r["html"], [d.name for d in r["dependencies"]]))(TagList(x).render())),
+            ("HTMLDocument(x).render()", lambda x: (lambda r: (r["html"], [d.name for d in r["dependencies"]]))(HTMLDocument(x).render()))]
+    for bl, mk in builds():
+        x = mk()
+        before = (tuple((k, shape(v)) for k, v in x.attrs.items()), tuple(shape(c) for c in x.children))
+        first = {}
+        for name, f in ops_ + list(reversed(ops_)):
+            n += 1
+            ck.holds_checked += 1
+            try:
+                r = f(x)
+            except Exception as e:  # noqa: BLE001
+                r = f"raised {type(e).__name__}: {e}"
+            after = (tuple((k, shape(v)) for k, v in x.attrs.items()), tuple(shape(c) for c in x.children))
+            if after != before:
+                ck.py_violation(f"jsx_receiver {bl} / {name}", str(after)[:300],
+                                f"{name} on a JSX component ({bl}) changed what the component's props / children hold (containers handed over by the caller must keep "
+                                f"the very same objects)", py=f"x = Foo(items=[Tag('b', 'x'), Bar(n=1), Comp('k'), 's']); items = x.attrs['items']; {name}; items   # {bl}")
+                break
+            if first.setdefault(name, r) != r:
+                ck.py_violation(f"jsx_receiver {bl} / {name}", str(r)[:300], f"{name} on a JSX component ({bl}) gave a different result when repeated", py=bl)
+                break
+    ck.exhaustive_scopes.append({"scope": "read-only operations on JSX components whose props are lists / dicts / tuples of tags, components, tagifiable objects: 4 receivers x 6 operations x 2", "n": n, "exhaustive": True})
+    return n
+
+
 def snapshot_oracle(ck, rng, rounds):
     """independent of Lean: every read-only operation, in random orders, on receivers with aliasing / real files;
     tagify() result disjoint from the original; mutation of either side leaves the other's snapshot unchanged"""
@@ -842,6 +901,7 @@ def run(tier: str) -> int:
     ck.add_src(['Tag_copyC08b', 'HTMLDocument_copyC08b', 'copy_tag_nodesC08b', 'HTMLDependency_copyC08b', 'HTMLDependency_reprC08b', 'HTMLDependency_strC08b'], quick=120, thorough=1200); __import__('srctie_c08b').add_src_c08b(ck, ['Tag_copyHC08b', 'HTMLDocument_copyHC08b', 'copy_tag_nodesHC08b', 'HTMLDependency_copyHC08b'], quick=150, thorough=1500)   # copies: by value (op src) and over the heap (op srcc08b)
     ck.correspond(holds=True)
     n_py = snapshot_oracle(ck, rng, 2 if tier == "quick" else 12)
+    ck.extra_cov["jsx_receiver_cases"] = jsx_receiver_oracle(ck)
     ck.extra_cov["py_pool_operations"] = n_py
     ck.extra_cov["extra_evaluations"] = n_py
     shrink = make_shrinker(ck)
